@@ -170,6 +170,8 @@ class R:
                 raise ZeroDivisionError("symbolic division by zero shadow")
             if b.n.op == 'const' and b.n.val == 1:
                 return R(a.n, ring)
+            if a.n.op == 'const' and a.n.val == 0:
+                return R.const(0)
             return R(Node('div', (a.n, b.n), a.val / b.val), ring)
         raise AssertionError(op)
 
@@ -273,6 +275,10 @@ class R:
 
     def item(self, *a):
         return self
+
+
+# numpy's poly1d tests np.isscalar(other) before dividing by it; isscalar accepts numbers.Number instances
+numbers.Number.register(R)
 
 
 def _fn(name, x, shadow):
